@@ -63,6 +63,7 @@ class C03(Prop):
         if not quick:
             payloads += ["".join(p) for p in itertools.product(pc.SYNTAX_CHARS, repeat=2)]
         n = 0
+        pyref = {}
         for kind in kinds:
             for ctx in pc.CONTEXTS:
                 base = pc.literal_text(kind, "ab" if kind in ("two_char",) else ("a" if kind in ("character", "codepage_number") else "ab"))
@@ -77,12 +78,18 @@ class C03(Prop):
                     if got != ref:
                         self.last_n = n
                         return dict(kind=kind, context=ctx, program_a=ctx.format(base), program_b=src, shape_a=repr(ref)[:300], shape_b=repr(got)[:300])
+                    if "error" not in repr(ref)[:40]:
+                        pa, pb = pyref.setdefault((kind, ctx), pc.py_shape(ctx.format(base))), pc.py_shape(src)
+                        if pa != pb:
+                            self.last_n = n
+                            i = next((j for j, (x, y) in enumerate(zip(pa, pb)) if x != y), min(len(pa), len(pb)))
+                            return dict(kind=kind, context=ctx, program_a=ctx.format(base), program_b=src, emitted="the Python emitted for the two programs differs beyond the pushed constant", python_a=pa[max(0, i - 80):i + 120], python_b=pb[max(0, i - 80):i + 120])
         self.last_n = n
         return None
 
     def bounded(self, W, tier, seed):
         w = self.search_payload(quick=(tier != "thorough"))
-        return [dict(name="C03/bounded-payload-substitution", what="literal payloads over the syntax-significant characters substituted in fixed contexts; parse shapes compared on the real lexer+parser", bound=f"payload length <= {1 if tier != 'thorough' else 2}, {len(pc.CONTEXTS)} contexts, 6 literal kinds", evaluations=self.last_n, label="bounded", failures=[w] if w else [])]
+        return [dict(name="C03/bounded-payload-substitution", what="literal payloads over the syntax-significant characters substituted in fixed contexts; parse shapes compared on the real lexer+parser, and the emitted Python compared with the pushed constants masked", bound=f"payload length <= {1 if tier != 'thorough' else 2}, {len(pc.CONTEXTS)} contexts, 6 literal kinds", evaluations=self.last_n, label="bounded", failures=[w] if w else [])]
 
     def run_replay(self, path):
         import json
@@ -93,6 +100,8 @@ class C03(Prop):
         if "program_a" in w:
             a, b = pc.parse_shape(w["program_a"]), pc.parse_shape(w["program_b"])
             print("shape a:", a, "\nshape b:", b)
+            if "emitted" in w:
+                return 1 if pc.py_shape(w["program_a"]) != pc.py_shape(w["program_b"]) else 0
             return 1 if a != b else 0
         if "source" in w:
             return 1 if pc.replay_lexer(w["source"]) else 0
